@@ -8,7 +8,7 @@ License: 3-clause BSD. (See the COPYRIGHT file)
 from __future__ import annotations
 
 import string
-from typing import Iterator, overload
+from typing import Iterable, Iterator, overload
 
 from exabgp.util.types import Buffer
 
@@ -35,6 +35,31 @@ def string_is_hex(s: str) -> bool:
     if len(s) <= HEX_PREFIX_LENGTH:
         return False
     return all(c in string.hexdigits for c in s[HEX_PREFIX_LENGTH:])
+
+
+def json_members(members: Iterable[str]) -> str:
+    """Join JSON members ('"key": value') into the content of one object, no key twice.
+
+    The members come from TLVs a peer sent, and a peer may send the same TLV twice: joined
+    as they are, the object then holds one key twice, and every parser silently keeps one
+    of the two values.  A key seen once is written exactly as it was given; the values of
+    a key seen several times are written, in the order received, as one list under it.
+    """
+    grouped: dict[str, list[str]] = {}
+    for member in members:
+        if not member:
+            continue
+        # the key is a quoted name we chose (no quote inside it), the value follows the colon
+        end = member.index('"', 1) + 1
+        grouped.setdefault(member[:end], []).append(member)
+    joined: list[str] = []
+    for key, same in grouped.items():
+        if len(same) == 1:
+            joined.append(same[0])
+            continue
+        values = ', '.join(member[member.index(':', len(key)) + 1 :].strip() for member in same)
+        joined.append(f'{key}: [ {values} ]')
+    return ', '.join(joined)
 
 
 @overload
